@@ -573,6 +573,7 @@ class State:
         self.visits = {}
         self.trace = []
         self.memo = {}
+        self.writes = []       # (location, index into events) of writes to non-local memory
 
     def fork(self):
         s = State()
@@ -583,6 +584,7 @@ class State:
         s.visits = dict(self.visits)
         s.trace = list(self.trace)
         s.memo = dict(self.memo)
+        s.writes = list(self.writes)
         return s
 
 
@@ -594,6 +596,7 @@ class Path:
         self.kind = kind        # 'return' | 'panic' | 'bound' | 'diverge'
         self.trace = st.trace
         self.mem = st.mem
+        self.writes = st.writes
 
     def names(self):
         return [e.name for e in self.events]
@@ -809,6 +812,8 @@ class Engine:
 
     def store(self, st, loc, val):
         loc = self._redirect(st, loc)
+        if loc and isinstance(loc[0], tuple) and loc[0][0] == "o":
+            st.writes.append((loc, len(st.events)))
         n = len(loc)
         for k in [k for k in st.mem if len(k) >= n and k[:n] == loc]:
             del st.mem[k]
@@ -817,6 +822,8 @@ class Engine:
 
     def havoc(self, st, loc, ty=None, keep_shared_refs=True):
         loc = self._redirect(st, loc)
+        if loc and isinstance(loc[0], tuple) and loc[0][0] == "o":
+            st.writes.append((loc, len(st.events)))
         n = len(loc)
         for k in [k for k in st.mem if len(k) >= n and k[:n] == loc]:
             v = st.mem[k]
@@ -1553,13 +1560,18 @@ class Engine:
             st.events.append(Event(plain, argvals, val, where, "pure", callee))
             return ret_bb
         # havoc memory reachable through &mut arguments
-        if not any(p.search(plain) for p in self.nomut):
-            for a, v in zip(args, argvals):
-                leaf = v.get(())
-                if isinstance(leaf, Ref) and leaf.mut:
+        suppress = any(p.search(plain) for p in self.nomut)
+        for a, v in zip(args, argvals):
+            leaf = v.get(())
+            if isinstance(leaf, Ref) and leaf.mut:
+                if suppress:
+                    l2 = self._redirect(st, leaf.loc)
+                    if l2 and isinstance(l2[0], tuple) and l2[0][0] == "o":
+                        st.writes.append((l2, len(st.events)))
+                else:
                     self.havoc(st, leaf.loc)
-                elif isinstance(leaf, Opq) and leaf.ty.startswith("&mut"):
-                    self.havoc(st, (("o", leaf.id), "deref"))
+            elif isinstance(leaf, Opq) and leaf.ty.startswith("&mut") and not suppress:
+                self.havoc(st, (("o", leaf.id), "deref"))
         val = self.fresh_value(dest_ty, plain.split("::")[-1])
         if dest_loc is not None:
             self.store(st, dest_loc, dict(val))
